@@ -227,7 +227,7 @@ type verifInterestIn struct {
 
 func (r *verifRig) genInterest(allowLocalhost bool) verifInterestIn {
 	in := verifInterestIn{hop: -1}
-	in.name = verifRigName("in", 1, verifParam("depth", 2), allowLocalhost)
+	in.name = verifRigName("in", verifParam("minlen", 1), verifParam("depth", 2), allowLocalhost)
 	in.cbp = verifBool("cbp")
 	in.face = uint64(1 + verifChoice("inface", len(r.faces)))
 	in.hasNonce = true
@@ -685,7 +685,7 @@ func VerifC01_FwHistory() { verifFwHistory("C01", false) }
 // verifFwScript runs one of a list of fixed history shapes (I = Interest, D = Data, A = clock advance with
 // a PIT sweep), every parameter of every step symbolic as in verifFwHistory.  Shapes reach deeper histories
 // than the free enumeration can afford.
-func verifFwScript(check string, allowLocalhost bool, shapes []string) {
+func verifFwScript(check string, allowLocalhost bool, shapes []string) *verifRig {
 	r := verifNewRig(allowLocalhost, check)
 	shape := shapes[verifChoice("shape", len(shapes))]
 	for _, k := range shape {
@@ -699,6 +699,7 @@ func verifFwScript(check string, allowLocalhost bool, shapes []string) {
 			r.th.pitCS.Update()
 		}
 	}
+	return r
 }
 
 // longer Data-side histories: two pending Interests then expiry and/or Data, re-expression after satisfaction
